@@ -355,6 +355,15 @@ pub fn finish(cfg: &Config, started: Instant, out: Outcome) -> i32 {
     for (k, v) in &st.counters {
         println!("[avm]   {k} = {v}");
     }
+    {
+        let mut by_class: BTreeMap<String, u64> = BTreeMap::new();
+        for v in &all_violations {
+            *by_class.entry(v.class.clone()).or_insert(0) += 1;
+        }
+        for (c, n) in &by_class {
+            println!("[avm]   violations of class [{c}] = {n}{}", if open.iter().any(|k| &k.class == c) { " (known finding)" } else { "" });
+        }
+    }
     if let Some(p) = first_replay {
         for v in unlisted.iter().take(5) {
             println!("[avm] violation [{}]: {}", v.class, v.summary);
